@@ -442,6 +442,15 @@ def checkClose (c : CaseSt) : CloseVerdict := Id.run do
         | some it => if it > ie then v := { v with fails := v.fails ++ [s!"{c.event}: end-of-stream was delivered while sender {sid} was still alive (it was dropped later)"] }
         | none => v := { v with fails := v.fails ++ [s!"{c.event}: end-of-stream was delivered but sender {sid} was never dropped"] }
     | none => pure ()
+  -- `SendError::closed_reason()` of a refused send is the model's `errReason` of the recorded error
+  if !once then
+    for s in c.sends do
+      match Remoc.Close.rerrOfKind s.res with
+      | some e =>
+        let want := Remoc.Close.reasonName (Remoc.Close.errReason e)
+        if getKV s.kv "reason" != "" && getKV s.kv "reason" != want then
+          v := { v with diffs := v.diffs ++ [s!"send tag {s.tag} of sender {s.sender} failed with '{s.res}': its closed_reason() is {getKV s.kv "reason"}, M_close (errReason): {want}"] }
+      | none => pure ()
   for link in (c.links.map (·.2)).eraseDups do
     if link == "local" then continue
     v := { v with links := v.links + 1 }
